@@ -84,6 +84,9 @@ def docs():
         paths={"/reports/daily": {"get": {"tags": ["reports"], "parameters": [{"name": "day", "in": "query", "schema": {"type": "string", "format": "date"}}], "responses": ok("Daily")}},
                "/reports_daily": {"get": {"tags": ["legacy"], "parameters": [{"name": "n", "in": "query", "required": True, "schema": {"type": "integer"}}], "responses": ok("Legacy")}},
                "/items/{id}": {"get": {"operationId": "getItem", "tags": ["items"], "parameters": [{"name": "id", "in": "path", "required": True, "schema": {"type": "integer"}}], "responses": ok("Thing")}},
+               "/inline": {"put": {"operationId": "putInline", "tags": ["single", "items2", "third"],
+                                   "requestBody": {"required": True, "content": {"application/json": {"schema": obj(note={"type": "string"}, kind={"type": "string", "enum": ["k1", "k2"]})}}},
+                                   "responses": {"200": {"description": "d", "content": {"application/json": {"schema": obj(done={"type": "boolean"}, inner=obj(x={"type": "integer"}))}}}}}},
                "/item": {"get": {"operationId": "get_item", "tags": ["single", "items2"], "parameters": [{"name": "id", "in": "query", "required": True, "schema": {"type": "string"}}], "responses": ok("Legacy")},
                          "post": {"operationId": "GetItem", "tags": ["third"], "requestBody": {"required": True, "content": {"application/json": {"schema": ref("Thing")}}}, "responses": ok("Daily")}}})
     # inline enums with identical values, to be merged onto one class by class_overrides; the first use carries a default
@@ -301,6 +304,17 @@ def run_case(p):
                 V("renaming-changes-metadata", f, "metadata differs beyond the overridden names: " + _first_line_diff(a.decode(), t))
         if opt == "package_version_override" and 'version = "9.8.7"' not in new.tree["pyproject.toml"].decode():
             V("override-not-applied", "pyproject.toml", "version override missing from pyproject.toml")
+        if opt == "project_name_override":
+            # the package name derived from an overridden project name: the dashes become underscores, nothing else changes
+            for pn, want in (("Acme-SDK2-Client", "Acme_SDK2_Client"), ("my.dotted-Name", "my.dotted_Name"), ("already_snake", "already_snake")):
+                r_ = _gen(doc, ctx, meta="poetry", project_name_override=pn)
+                steps += 1
+                if r_.crash or r_.tree is None:
+                    continue
+                if r_.pkg_prefix != want:
+                    V("override-not-applied", "package-dir", f"project_name_override={pn!r}: package directory is {r_.pkg_prefix!r}, documented {want!r}", k=key + "/derived-package-name")
+                elif r_.pkg_tree() != base.pkg_tree():
+                    V("renaming-changes-package", "package", f"project_name_override={pn!r}: package contents differ", k=key + "/derived-package-name")
     elif opt == "class_override_merge":
         base = _gen(doc, ctx)
         c = crashed(base)
